@@ -133,10 +133,10 @@ struct Bounds {
 
 fn bounds(prop: Prop, tier: Tier) -> Bounds {
     match (prop, tier) {
-        (Prop::C16, Tier::Quick) | (Prop::C08, Tier::Quick) => Bounds { s_cfg: 5, s_rec: 5, n: 5, conf_per_shard: 6, n_r: 4 },
-        (Prop::C16, Tier::Thorough) | (Prop::C08, Tier::Thorough) => Bounds { s_cfg: 7, s_rec: 7, n: 6, conf_per_shard: 60, n_r: 5 },
-        (_, Tier::Quick) => Bounds { s_cfg: 6, s_rec: 4, n: 5, conf_per_shard: 8, n_r: 4 },
-        (_, Tier::Thorough) => Bounds { s_cfg: 8, s_rec: 6, n: 7, conf_per_shard: 80, n_r: 5 },
+        (Prop::C16, Tier::Quick) | (Prop::C08, Tier::Quick) => Bounds { s_cfg: 6, s_rec: 5, n: 5, conf_per_shard: 8, n_r: 4 },
+        (Prop::C16, Tier::Thorough) | (Prop::C08, Tier::Thorough) => Bounds { s_cfg: 8, s_rec: 7, n: 7, conf_per_shard: 60, n_r: 5 },
+        (_, Tier::Quick) => Bounds { s_cfg: 7, s_rec: 4, n: 6, conf_per_shard: 12, n_r: 4 },
+        (_, Tier::Thorough) => Bounds { s_cfg: 9, s_rec: 6, n: 8, conf_per_shard: 100, n_r: 5 },
     }
 }
 
@@ -592,6 +592,14 @@ fn run(ctx: &mut Ctx, prop: Prop) {
                 let stats = implt::new_stats(true);
                 let (mut nacc, mut nrej) = (0u64, 0u64);
                 for inp in &inputs {
+                    // inputs that extend a non-viable prefix by more than one token have the
+                    // same outcome as the shorter one provided the parser stops at the
+                    // offending token -- which is checked (`pulled <= k`) on the inputs kept,
+                    // that carry one token after the offending one.
+                    if !has_err && inp.len() > 2 && !lang.viable(start, lang::from_slice(&inp[..inp.len() - 2])) {
+                        ctx.count("inputs_pruned_beyond_error");
+                        continue;
+                    }
                     let toks = implt::gapped(inp);
                     let r = implt::run_tokens(t, &tok_idx, &toks, &stats);
                     ctx.count("parses");
